@@ -90,7 +90,7 @@ def make_overlay(work):
         open(q, "w", encoding="utf-8").write(new)
         entries.append({"name": p, "type": "file", "external-contents": q})
         shimmed.append(p)
-    y = {"version": 0, "case-sensitive": "true", "roots": entries}
+    y = {"version": 0, "case-sensitive": "true", "use-external-names": "false", "roots": entries}
     yp = os.path.join(work, "overlay.yaml")
     json.dump(y, open(yp, "w"))
     return yp, shimmed
